@@ -189,6 +189,9 @@ func Start(p Policy, mapMode int, mapSeed uint64) *Sim {
 	return s
 }
 
+// SetMapOrder changes the map iteration mode and seed for what follows.
+func (s *Sim) SetMapOrder(mode int, seed uint64) { s.mapMode, s.mapSeed = mode, seed }
+
 // Current returns the active simulation or nil.
 func Current() *Sim { return cur.Load() }
 
